@@ -108,6 +108,25 @@ def new_optimizer(max_length):
     return Optimizer(max_length=max_length)
 
 
+FILL_CALLS = [0]
+_patched = [False]
+
+
+def count_fill_calls():
+    """Count calls of GuessStructure._fill_out_parse_tree (work estimate for the
+    Coq side); class attribute wrapped from the harness, no repository change."""
+    if _patched[0]:
+        return
+    from lib_guesser.omen.guess_structure import GuessStructure
+    real = GuessStructure._fill_out_parse_tree
+
+    def counted(self, ip, length, target_level):
+        FILL_CALLS[0] += 1
+        return real(self, ip, length, target_level)
+    GuessStructure._fill_out_parse_tree = counted
+    _patched[0] = True
+
+
 def run_level(grammar, T, optimizer, cap=10 ** 9, budget_s=20.0):
     """MarkovCracker(grammar, T, optimizer).next_guess() until None.
     Returns (guesses, status); status: 'done', 'capped', 'timeout', 'raised'."""
